@@ -3,6 +3,7 @@ fact loading, rule results, evidence and known findings."""
 import fcntl
 import hashlib
 import json
+import re
 import os
 import shutil
 import subprocess
@@ -320,6 +321,10 @@ def body_hash(b):
             return {k: strip_sp(v) for k, v in x.items() if k not in ("sp", "fsp", "exp", "expc")}
         if isinstance(x, list):
             return [strip_sp(y) for y in x]
+        if isinstance(x, str) and "HirId(" in x:
+            # e.g. `TryDesugar(HirId(DefId(0:431 ~ jaq_fmts[47ce]::..)))`: definition indices and crate hashes shift
+            # whenever anything else in the crate changes
+            return re.sub(r"HirId\(.*\)", "HirId", x)
         return x
     return hashlib.sha1(json.dumps(strip_sp(b), sort_keys=True, default=repr).encode()).hexdigest()[:16]
 
